@@ -216,7 +216,8 @@ def run_behaviour(ctx, name, driver_cls, factory, case, seed, workdir, ref_cache
     drv.construct()
     saved = None
     seen_prefix = None          # chain as returned after the previous op of this instance
-    how = "file" if (hash(str(prog)) % 2 == 0) else "mem"
+    import zlib
+    how = "file" if (zlib.crc32(str(prog).encode()) % 2 == 0) else "mem"      # deterministic (no PYTHONHASHSEED dependence)
     warm_offset = 0
     for pos, e in enumerate(prog):
         op = e["op"]
